@@ -1230,7 +1230,7 @@ class Gen:
             return      # body-carrying misuse would make the *application* break HTTP semantics (C16's business)
         # FSM-refused misuse poisons the stream/connection FSM (known finding
         # F-POISON): only generated in the confirmation share of runs.
-        fsm_ok = self.fsm_misuse
+        fsm_ok = self.fsm_misuse or bool(self.P.get('poison_ok'))
         if k == 0:
             hs = rng.choice([hg.request(mf), hg.response(max_frame=mf), hg.trailers(mf), hg.invalid(max_frame=mf)])
             plain_refusal = st is None and ((sid > MAXID and e.client) or (not e.client and sid > 0))
@@ -1340,8 +1340,9 @@ class Gen:
             if st is None or st.state not in ('open', 'hcR') or st.sent != FINAL:
                 return
             # (refused after the state machine has been asked, and rolled back since fix 5deac66: a plain refusal)
-            if not e.client and rng.random() < 0.4:
-                # an informational response after the final one (with END_STREAM it looks like trailers to a careless check)
+            if not e.client and fsm_ok and rng.random() < 0.5:
+                # an informational response after the final one (with END_STREAM it looks like trailers to a careless check);
+                # refused by the stream state machine, so only where open finding F-POISON is not steered around
                 self.call(ep, 'send_headers', sid=sid, headers=hg.response(info=True, max_frame=mf), es=rng.random() < 0.7)
             else:
                 self.call(ep, 'send_headers', sid=sid, headers=hg.trailers(mf), es=False)
@@ -1618,6 +1619,12 @@ class Gen:
         if rng.random() < 0.7:
             d = {}
             keys = [C.S_ENABLE_PUSH, C.S_MAX_CONCURRENT_STREAMS, C.S_ENABLE_CONNECT_PROTOCOL, C.S_INITIAL_WINDOW_SIZE]
+            if rng.random() < self.P.get('upgrade_all_keys', 0.0):
+                # settings from which the client derives decoder / frame-buffer limits: the server uses them at once
+                # (HEADER_TABLE_SIZE stays at its default: the upgrade hands every setting to the server twice - header
+                # and preamble SETTINGS frame - and hpack 4.2 loses the pending table-size update when the same size is
+                # set twice, DESIGN section 8)
+                keys = [k for k in SETTING_VALUES if k != C.S_HEADER_TABLE_SIZE]
             if rng.random() < self.P.get('upgrade_full_space', 0.0):
                 # whole valid space: only the settings view is judged, no continuation program
                 keys = list(SETTING_VALUES)
@@ -1631,6 +1638,10 @@ class Gen:
                 d[k] = rng.choice(vals)
             if d:
                 self.call('c', 'set_local_settings', settings=d)
+                if C.S_HEADER_TABLE_SIZE in d:
+                    # (counts as a change of HEADER_TABLE_SIZE in flight for the hpack 4.2 guard: no second change
+                    # before the server's first header block has arrived)
+                    self.table_state['c'] = 'wait_block'
         s = self.call('c', 'initiate_upgrade_connection')
         hdr = s.ret if s is not None and s.ok else None
         import base64
